@@ -282,6 +282,8 @@ def check(ctx):
     dumps = [c for c in calls_in(fn) if m.resolve_call(fi, c) == 'gambit.cluster.dump_dmat_csv']
     rep.require(len(dumps) == 1, 'dist_cmd: expected one dump_dmat_csv call')
     dc = dumps[0]
+    rep.account_exits('G2', fi, [s_ for s_ in stmts_in(fn.body) if not isinstance(s_, (ast.If, ast.For, ast.While, ast.With, ast.Try)) and any(x_ is dc for x_ in ast.walk(s_))], 'the matrix is written',
+                      excused=[('true', 'dump_params')])          # the hidden --dump-params debugging mode prints the parsed parameters instead of computing anything
     out_a, dmat_a, rows_a, cols_a = (get_arg(dc, i, n) for i, n in enumerate(['file', 'dmat', 'row_ids', 'col_ids']))
     rep.require(all(isinstance(a, ast.AST) for a in (out_a, dmat_a, rows_a, cols_a)), 'dist_cmd: dump_dmat_csv is not called with explicit file / matrix / row ids / column ids')
 
@@ -625,6 +627,7 @@ _CACHEH = ("def calc_side_signatures(kspec, ids, files, desc, progress=None, cor
 _PLAINH = ("def calc_side_signatures(kspec, ids, files, desc, progress=None, cores=None):\n\tpconf = progress_config(progress, desc=desc) if len(files) > 1 else None\n"
            "\treturn calc_file_signatures(kspec, files, progress=pconf, max_workers=cores)\n\n\n")
 VARIANTS = [
+    V('guard clause: a single query in square mode is not written (early-exit probe)', 'B', _D, "\tdump_dmat_csv(output, dmat, query_ids, ref_ids)", "\tif square and len(query_ids) == 1:\n\t\treturn\n\tdump_dmat_csv(output, dmat, query_ids, ref_ids)", 'G2'),
     V('file options resolve symlinks (seeded C16c)', 'B', 'src/gambit/cli/common.py', "\tkw.setdefault('path_type', Path)\n\treturn click.Path(file_okay=True, dir_okay=False, **kw)\n",
       "\tkw.setdefault('path_type', Path)\n\tkw.setdefault('resolve_path', True)\n\treturn click.Path(file_okay=True, dir_okay=False, **kw)\n", 'G5'),
     V('one option asks for a resolved path', 'B', 'src/gambit/cli/dist.py', "@click.option('-q', type=common.filepath(exists=True), multiple=True,", "@click.option('-q', type=common.filepath(exists=True, resolve_path=True), multiple=True,", 'G5'),
